@@ -101,7 +101,7 @@ theorem treeInv_insertOrdered {sv : Server} (sid : Nat) (key before : Bytes) (va
     apply treeInv_updSess
     apply treeInv_insertOrderedChild _ _ _ _ _ _ hx
     intro p _
-    exact Or.inl (ordPair_fresh p rfl)
+    exact Or.inr (Or.inl (ordPair_fresh p rfl))
 
 /-- PR_COMMAND_REMOVEDATA -/
 theorem treeInv_removeData {sv : Server} (sid : Nat) (keys : List Bytes) (h : TreeInv sv) :
